@@ -50,7 +50,15 @@ impl QueryBuilder for PostgresQueryBuilder {
                 } else {
                     (type_name.as_str(), "")
                 };
-                write!(sql, " AS {}{}{}{})", q.left(), ty, q.right(), sfx).unwrap();
+                write!(
+                    sql,
+                    " AS {}{}{}{})",
+                    q.left(),
+                    Alias::new(ty).quoted(q),
+                    q.right(),
+                    sfx
+                )
+                .unwrap();
             }
             _ => QueryBuilder::prepare_simple_expr_common(self, simple_expr, sql),
         }
